@@ -43,6 +43,60 @@ fn read_with(file: &[u8], fill: u8, len_delta: i64) -> (String, Option<Vec<u8>>,
     r.unwrap_or_else(|m| (format!("PANIC {m}"), None, 0, false))
 }
 
+/// reader over a stream in which the file starts at `prefix`; once armed it fails exactly once, at
+/// the first read at or beyond stream offset `at`
+struct Unusual { inner: Cursor<Vec<u8>>, at: Option<u64>, armed: std::rc::Rc<std::cell::Cell<bool>>, fired: std::rc::Rc<std::cell::Cell<bool>> }
+impl Unusual {
+    fn trip(&mut self) -> std::io::Result<()> {
+        if let Some(at) = self.at {
+            if self.armed.get() && !self.fired.get() && self.inner.position() >= at {
+                self.fired.set(true);
+                return Err(std::io::Error::new(std::io::ErrorKind::TimedOut, "injected transient fault"));
+            }
+        }
+        Ok(())
+    }
+}
+impl std::io::Read for Unusual { fn read(&mut self, b: &mut [u8]) -> std::io::Result<usize> { self.trip()?; self.inner.read(b) } }
+impl std::io::BufRead for Unusual {
+    fn fill_buf(&mut self) -> std::io::Result<&[u8]> { self.trip()?; self.inner.fill_buf() }
+    fn consume(&mut self, a: usize) { self.inner.consume(a) }
+}
+impl std::io::Seek for Unusual { fn seek(&mut self, p: std::io::SeekFrom) -> std::io::Result<u64> { self.inner.seek(p) } }
+
+/// read_image through an unusual reader: the file embedded after `prefix` foreign bytes, and / or
+/// one transient fault at file offset `fault` after the decoder is open (the failed call is
+/// repeated once).  Returns the outcome and the buffer of the successful call.
+fn read_unusual(file: &[u8], fill: u8, prefix: usize, fault: Option<usize>) -> (String, Option<Vec<u8>>, bool) {
+    let armed = std::rc::Rc::new(std::cell::Cell::new(false));
+    let fired = std::rc::Rc::new(std::cell::Cell::new(false));
+    let (a2, f2) = (armed.clone(), fired.clone());
+    let r = catch(move || {
+        let mut stream: Vec<u8> = (0..prefix).map(|i| (i * 29 + 5) as u8).collect();
+        stream.extend_from_slice(file);
+        let mut cur = Cursor::new(stream);
+        cur.set_position(prefix as u64);
+        let mut d = match WebPDecoder::new(Unusual { inner: cur, at: fault.map(|f| (prefix + f) as u64), armed: a2.clone(), fired: f2 }) {
+            Ok(d) => d,
+            Err(e) => return (format!("OPENERR {e:?}"), None),
+        };
+        a2.set(true);
+        let size = d.output_buffer_size().unwrap_or(0);
+        let mut buf = vec![fill; size];
+        for attempt in 0..2 {
+            match d.read_image(&mut buf) {
+                Ok(()) => return ("ok".to_string(), Some(buf)),
+                Err(e) => {
+                    let text = format!("{e:?}");
+                    if attempt == 1 || !text.contains("injected") { return (format!("err {text}"), None); }
+                }
+            }
+        }
+        ("err".to_string(), None)
+    });
+    match r { Ok((o, b)) => (o, b, fired.get()), Err(m) => (format!("PANIC {m}"), None, fired.get()) }
+}
+
 struct Item {
     payload: Payload,
     w: u32,
@@ -171,6 +225,20 @@ pub fn run(o: &Opts) -> Report {
                         continue;
                     }
                     rep.disagree(Disagreement { case: format!("{case_base} wronglen {delta} | file {}", hex(file)), got: outcome, expected: "err (buffer untouched)".into(), class: "violation", obligation: "C11.wrong_len_rejected: any other buffer length is rejected and the buffer left untouched".into(), detail: format!("{} in {wname}, size {size}", it.kind) });
+                }
+            }
+            // unusual readers: the file embedded behind foreign bytes (the reader positioned at its
+            // first byte), and one transient I/O fault inside the image data with the failed call
+            // repeated - the successful read_image must still deliver the file's pixels
+            if let Some(b0) = outs.first() {
+                let fault_at = 12 + rng.below(file.len().saturating_sub(12).max(1) as u64) as usize;
+                for (what, prefix, fault) in [("embedded", 29usize, None), ("fault", 0usize, Some(fault_at)), ("embedded+fault", 5usize, Some(fault_at))] {
+                    let (outcome, buf, fired) = read_unusual(file, 0x5A, prefix, fault);
+                    rep.case(&format!("{case_base} unusual {what} {prefix} {fault:?} | file {}", hex(file)), true);
+                    rep.hit(&format!("unusual_reader_{what}{}", if fault.is_some() && !fired { "_not_reached" } else { "" }));
+                    if outcome != "ok" || buf.as_ref() != Some(b0) {
+                        rep.disagree(Disagreement { case: format!("{case_base} unusual {what} prefix={prefix} fault={fault:?} | file {}", hex(file)), got: if outcome == "ok" { "ok with different bytes".into() } else { outcome }, expected: "ok with the bytes of the plain read".into(), class: "violation", obligation: "C11: on success every byte of the buffer is determined by the file alone - not by where the file starts in the reader, nor by an earlier call that failed with a transient I/O error".into(), detail: format!("{} in {wname}; {what}", it.kind) });
+                    }
                 }
             }
             if let Some(b) = outs.into_iter().next() {
